@@ -46,6 +46,11 @@ def check(run):
     run.rule_text = "F-PATH insertion obligations + F-UNIT roles + exact polynomial identity"
     run.assumptions = ["every corner of a face is the start node of exactly one of its edges (face_edges are the closed ring)", "_insert_pt_in_latlonbox grows the box to contain the inserted point"]
     _insertions(run, P)
+    # units along the bounds pipeline (node lon/lat -> per-face edge arrays in radians -> boxes): degrees into trigonometry, a value converted twice,
+    # or a value that is degrees on one path and radians on another
+    from ..rules.common import dataflow, emit
+    R = dataflow(P, run.tier)
+    emit(run, R, {"UNIT/deg->trig", "UNIT/double-conversion"}, files=["uxarray/grid/geometry.py", "uxarray/grid/utils.py", "uxarray/grid/arcs.py"])
     _edge_extremes(run, P)
     _box_growth(run, P)
     _extreme(run, P)
